@@ -49,6 +49,19 @@ class Path(PathRun, ExprMixin, CallMixin, BuiltinMixin, StmtMixin):
         return CallMixin.e_Call(self, fr, node)
 
     def call_builtin(self, fr, f, args, kw, node=None):
+        if f.name.startswith('ctor!'):
+            nm = f.name[5:]
+            attrs = self.d.contract.opaque_ctors[nm]
+            if len(args) + len(kw) != len(attrs):
+                raise PyRaise('TypeError', getattr(node, 'lineno', None), f'{nm}() arity')
+            t = Val.VObj(self.allocp)
+            self.allocp = z3.simplify(self.allocp - 1)
+            self.assume(truthyV(t))
+            vals = dict(zip(attrs, args))
+            vals.update(kw)
+            for a in attrs:
+                self.set_fld(a, t, self.to_val(vals[a]))
+            return SDyn(t, shape=S.Rec(nm, attrs={}))
         if f.name.startswith('dynmeth!'):
             nm = f.name.split('!', 1)[1]
             mr = getattr(self.d.contract, 'method_results', None) or {}
@@ -488,10 +501,11 @@ class Driver:
                 p.prove(z3.Not(p.truthy(p.eval_contract_fn(cond, env2))), 'raises', f'{exc} must be raised', None)
         for lab, e in c.ensures_list():
             try:
-                goal = p.truthy(p.eval_contract_fn(e, env2))
+                goals = p.eval_contract_conjuncts(e, env2)
             except PyRaise as ex:
                 raise Unsupported(f'postcondition {lab} not evaluable: {ex}')
-            p.prove(goal, 'post', lab, getattr(p, 'cur_line', None))
+            for goal in goals:
+                p.prove(goal, 'post', lab, getattr(p, 'cur_line', None), assume=False)
         self.check_frame(p, allenv, 'normal')
 
     def check_frame(self, p, env, when):
@@ -572,7 +586,7 @@ def _spec_mod_lookup(orig):
         if isinstance(mod, _FakeMod):
             if name in S.SPECFUNCS:
                 return SSpecFn(S.SPECFUNCS[name])
-            if name in ('implies', 'iff', 'ev', 'set_of', 'forall', 'ext'):
+            if name in ('implies', 'iff', 'ev', 'set_of', 'forall', 'ext', 'inputs_unchanged', 'allocated'):
                 return SBuiltin('spec.' + name)
             v = getattr(mod.pymod, name, None)
             if isinstance(v, S.SpecFunc):
